@@ -58,7 +58,15 @@ class World:
         self.I = []
         for i, bases in enumerate(ISHAPE):
             b = tuple(self.I[j] for j in bases) or (Interface,)
-            I = InterfaceClass(INAME[i], b, {'attr': Attribute(MARK)}, __module__=name)
+            if i == len(ISHAPE) - 1:
+                # the usual way to make an interface is a class statement; this one runs inside a function and the result is
+                # published as a module global (importable by name, although its __qualname__ says '<locals>')
+                ns = mod.__dict__
+                exec('def _define(bases, Attribute, MARK):\n    class %s(*bases):\n        attr = Attribute(MARK)\n    return %s\n'
+                     % (INAME[i], INAME[i]), ns)
+                I = ns['_define'](b, Attribute, MARK)
+            else:
+                I = InterfaceClass(INAME[i], b, {'attr': Attribute(MARK)}, __module__=name)
             setattr(mod, INAME[i], I)
             self.I.append(I)
         self.K = []
